@@ -2866,11 +2866,28 @@ class RoAffine:
             else:
                 left = self
                 right = other
-            raffine = left.raffine + right.raffine
-            affine = left.affine + right.affine
             if self.dec_model is not other.dec_model or \
                self.rand_model is not other.rand_model:
                 raise ValueError('Models mismatch.')
+            left_raffine, right_raffine = left.raffine, right.raffine
+            num_rand = max(left_raffine.shape[1], right_raffine.shape[1])
+            raffines = []
+            for item in (left_raffine, right_raffine):
+                size, num = item.shape
+                if num < num_rand:
+                    # built before further random variables were declared
+                    rows = (np.arange(size).reshape((size, 1)) * num_rand +
+                            np.arange(num)).flatten()
+                    pad = csr_matrix((np.ones(size*num),
+                                      (rows, np.arange(size*num))),
+                                     shape=(size*num_rand, size*num))
+                    const = np.concatenate((item.const,
+                                            np.zeros((size, num_rand - num))),
+                                           axis=1)
+                    item = Affine(item.model, pad @ item.linear, const)
+                raffines.append(item)
+            raffine = raffines[0] + raffines[1]
+            affine = left.affine + right.affine
             return RoAffine(raffine, affine, self.rand_model)
         elif isinstance(other, (Affine, Vars, VarSub)):
             other = other.to_affine()
